@@ -96,8 +96,9 @@ def u_starts_ends():
             guard = z3.And(j >= 0, j < nodes.n)
             with c.quantified(guard):
                 body = lift(r._at(j)) == z3.Concat(lift(nodes._at(j)), z3.StringVal(suffix))
-            c.prove("post:one-expanded-name-per-node", z3.And(r.n == nodes.n, z3.ForAll([j], z3.Implies(guard, body))), prop=P)
-        return Unit(F, "NodeExpandedDiGraph.get_expanded_additional_%s" % which, h, globs=dict(utils=UtilsStub), props=[P])
+            c.prove("post:one-expanded-name-per-node", z3.And(r.n == nodes.n, z3.ForAll([j], z3.Implies(guard, body))), prop=P + ",C10")
+        from vf.replay import replay_expanded_additional
+        return Unit(F, "NodeExpandedDiGraph.get_expanded_additional_%s" % which, h, globs=dict(utils=UtilsStub), props=[P, "C10"], replay=replay_expanded_additional(which))
     return [mk("starts"), mk("ends")]
 
 
